@@ -25,6 +25,11 @@ Theorem C08_mbapp_chk_eq : forall mtu st src pkt, mb_wf st ->
   (forall st' d, mb_recv mtu st src pkt = Ok (st', d) -> mb_wf st').
 Proof. exact mb_recv_chk_step. Qed.
 
+(* p/p2pke parseInitHello (the only hand-written slicing in the P2PKE message parsers):
+   every byte string; neither body[len-2:] nor body[start:len-2] can be out of range *)
+Theorem C08_parse_init_hello_no_panic : forall body site, parse_init_hello_chk body <> Panic site.
+Proof. exact parse_init_hello_no_panic. Qed.
+
 (* p/p2pmux: every demultiplexer, every byte string *)
 Theorem C08_mux_no_panic : forall k b site, unframe k b <> Panic site.
 Proof. exact unframe_no_panic. Qed.
@@ -55,3 +60,4 @@ Print Assumptions C08_frag_chk_eq.
 Print Assumptions C08_mbapp_chk_eq.
 Print Assumptions C08_mux_no_panic.
 Print Assumptions C08_channel_never_panics.
+Print Assumptions C08_parse_init_hello_no_panic.
